@@ -387,6 +387,50 @@ fn long_inputs(rng: &mut StdRng, thorough: bool) -> Vec<(u8, u8, usize, Vec<u8>)
         }
         v.push((K_HDRS, 0, cap, h));
     }
+    // a forbidden byte deep inside a long field that has no end yet: the verdict is Err now, not
+    // "Partial until the line end shows up" (a lot of pending input is no reason to wait)
+    for (kind, prefix, fill) in [(K_REQ, &b"GET /"[..], b'p'), (K_RESP, &b"HTTP/1.1 200 "[..], b'r'), (K_HDRS, &b"A: b\r\nLong-Name"[..], b'n'),
+                                 (K_REQ, &b"GET / HTTP/1.1\r\nA: "[..], b'v'), (K_RESP, &b"HTTP/1.1 200 OK\r\nA: "[..], b'v'), (K_CHUNK, &b"1f;x="[..], b'e')] {
+        for bad in [0u8, 0x7f] {
+            if kind == K_CHUNK && bad == 0x7f { continue; }
+            let mut b = prefix.to_vec();
+            b.extend(std::iter::repeat(fill).take(if thorough { 70000 } else { 20000 }));
+            b.push(if kind == K_CHUNK { b'\n' } else { bad });
+            b.extend(std::iter::repeat(fill).take(9000));
+            v.push((kind, 0, 8, b));
+        }
+    }
+    // counts above any small fixed limit, each under the option that makes the shape legal:
+    // dropped lines, continuation lines of one header, delimiter spaces, blanks before the first
+    // header name and after a header name
+    {
+        let mut b = b"GET / HTTP/1.1\r\n".to_vec();
+        for _ in 0..5000 { b.extend_from_slice(b"b d\r\n"); }
+        b.extend_from_slice(b"Host: a\r\n\r\n");
+        v.push((K_REQ, 32, 8, b));
+        let mut b = b"HTTP/1.1 200 OK\r\n".to_vec();
+        for _ in 0..5000 { b.extend_from_slice(b"b d\n"); }
+        b.extend_from_slice(b"Host: a\r\n\r\n");
+        v.push((K_RESP, 64, 8, b));
+        let mut b = b"HTTP/1.1 200 OK\r\nA: x\r\n".to_vec();
+        for _ in 0..1500 { b.extend_from_slice(b" y\r\n"); }
+        b.extend_from_slice(b"B: z\r\n\r\n");
+        v.push((K_RESP, 8, 8, b));
+        let sp = |n: usize| -> Vec<u8> { vec![b' '; n] };
+        let mut b = b"HTTP/1.1 200 ".to_vec(); b.extend(sp(9000)); b.extend_from_slice(b"OK\r\n\r\n");
+        v.push((K_RESP, 2, 8, b.clone()));
+        v.push((K_RESP, 0, 8, b));
+        let mut b = b"HTTP/1.1".to_vec(); b.extend(sp(9000)); b.extend_from_slice(b"200 OK\r\n\r\n");
+        v.push((K_RESP, 2, 8, b));
+        let mut b = b"GET".to_vec(); b.extend(sp(9000)); b.push(b'/'); b.extend(sp(9000)); b.extend_from_slice(b"HTTP/1.1\r\n\r\n");
+        v.push((K_REQ, 1, 8, b));
+        let mut b = b"GET / HTTP/1.1\r\n".to_vec(); b.extend(sp(9000)); b.extend_from_slice(b"A: b\r\n\r\n");
+        v.push((K_REQ, 16, 8, b));
+        let mut b = b"HTTP/1.1 200 OK\r\nA".to_vec(); b.extend(sp(9000)); b.extend_from_slice(b": b\r\n\r\n");
+        v.push((K_RESP, 4, 8, b));
+        let mut b = b"HTTP/1.1 200 OK\r\nA:".to_vec(); b.extend(sp(9000)); b.extend_from_slice(b"b"); b.extend(sp(9000)); b.extend_from_slice(b"\r\n\r\n");
+        v.push((K_RESP, 0, 8, b));
+    }
     // random long messages
     for _ in 0..(if thorough { 60 } else { 12 }) {
         let kind = if rng.gen_bool(0.5) { K_REQ } else { K_RESP };
@@ -507,7 +551,7 @@ fn short_message(rng: &mut StdRng, kind: u8) -> Vec<u8> {
     let mut b: Vec<u8> = Vec::new();
     if kind == K_REQ {
         if rng.gen_bool(0.15) { b.extend_from_slice(b"\r\n"); }
-        b.extend_from_slice([&b"GET"[..], b"POST", b"X"][rng.gen_range(0..3)]);
+        b.extend_from_slice([&b"GET"[..], b"POST", b"X", b"PATCH", b"PATCHWORK", b"OPTIONS", b"OPTION", b"GETX", b"POSTS"][rng.gen_range(0..9)]);
         b.push(b' ');
         if rng.gen_bool(0.2) { b.push(b' '); }
         b.push(b'/');
@@ -555,7 +599,7 @@ fn long_fields_message(rng: &mut StdRng, kind: u8) -> Vec<u8> {
     let mut b: Vec<u8> = Vec::new();
     let run = |rng: &mut StdRng, n: usize, b: &mut Vec<u8>| { for _ in 0..n { b.push(rng.gen_range(b'a'..=b'z')); } };
     if kind == K_REQ {
-        b.extend_from_slice(b"GET /");
+        b.extend_from_slice([&b"GET /"[..], b"PATCH /", b"PATCHWORK /", b"DELETE /"][rng.gen_range(0..4)]);
         let n = rng.gen_range(64..140);
         run(rng, n, &mut b);
         b.extend_from_slice(b" HTTP/1.1\r\n");
@@ -809,7 +853,7 @@ pub fn cmd_scan(args: &[String]) {
                         for (si, (q, qb)) in seconds.into_iter().enumerate() {
                             if q == p { continue; }
                             for (ai, &align) in aligns.iter().enumerate() {
-                                if (fill == 9 || (n >= 127 && !thorough)) && ai > 0 { continue; }
+                                if (fill == 9 || n >= 127) && ai > 0 { continue; }
                                 // the lane-distance seconds (index 3 and up) at the end-flush placement only
                                 if n < 127 && si >= 3 && ai > 0 { continue; }
                                 let mut stops = [0usize; 256];
